@@ -8,7 +8,8 @@ IMPORTS = ["SocVerif.Props.C17"]
 
 def run(rep, tier):
     lib.proof_gate(rep, PROP, THEOREMS, IMPORTS)
-    n = 500 if tier == "quick" else 40000
+    n = 500 if tier == "quick" else 160000
+    n = rep.scale(n)
     agg = runner.correspondence(rep, prop=PROP, mod_name="harness.buildersim", driver_kind="builder", ncases=n,
                                 nontrivial=lambda r: r["stats"]["explicit"] >= 1 and r["stats"]["scoped"] >= 1 and r["stats"]["regs_placed"] >= 2,
                                 sample_fmt=lambda r: {"program": r["lines"][:12], "answers": r["obs"][:11]})
